@@ -372,6 +372,25 @@ func logFamilies() [][]logCase {
 		f.InstrumentationScope = &instrumentation.Scope{Name: "only-attrs", Attributes: attribute.NewSet(attrFamily()...)}
 	}))
 	fams = append(fams, fam)
+	// many attributes / a long body list: limits are configuration, not a bound of the encoding
+	fam = nil
+	for _, n := range []int{127, 128, 129, 300, 1000} {
+		n := n
+		fam = append(fam, mk("attributes.count", fmt.Sprintf("%d attributes", n), func(f *logtest.RecordFactory) {
+			f.Attributes = make([]api.KeyValue, n)
+			for i := range f.Attributes {
+				f.Attributes[i] = api.Int(fmt.Sprintf("k%04d", i), i)
+			}
+		}))
+		fam = append(fam, mk("body.count", fmt.Sprintf("slice of %d values", n), func(f *logtest.RecordFactory) {
+			vs := make([]api.Value, n)
+			for i := range vs {
+				vs[i] = api.IntValue(i)
+			}
+			f.Body = api.SliceValue(vs...)
+		}))
+	}
+	fams = append(fams, fam)
 	return fams
 }
 
